@@ -665,6 +665,16 @@ class HeapVerifier(vcmod.FunctionVerifier):
                 for n, formula in self.invb.same(pre.heap, f.heap, []):
                     ob.vcs.append(PathVC(list(f.pc), formula, f.trace, 'frame', note=n))
             self.obligations.append(ob)
+        if getattr(c, 'modifies', None) is not None:
+            # frame of a successful call: only the listed (parameter, field) pairs may change
+            ob = Obligation(fid + '#modifies', 'a successful call changes only %s' % (list(c.modifies),))
+            for f in exits:
+                if f.status != 'ret':
+                    continue
+                excs = [(fld, self.ex.rv(self.params[pn])) for pn, fld in c.modifies]
+                for n, formula in self.invb.same_except(self.ex.pre_heap, f.heap, excs):
+                    ob.vcs.append(PathVC(list(f.pc), formula, f.trace, 'frame', note=n, state=f))
+            self.obligations.append(ob)
         if c.on_raise == 'Same' and not getattr(c, 'pure', False):
             ob = Obligation(fid + '#on_raise.Same', 'a refused operation changes nothing (C06)')
             for f in exits:
